@@ -21,8 +21,7 @@ def run(tier, seed, verdict):
     need = ["v1_queued_grants", "v2_queued_grants", "v2_cancelled_done", "v2_stop_lost_race_value",
             "v2_stop_while_queued", "v2_stop_before_start", "v2_hop_completions", "v1_trylock_ok", "v2_trylock_fail"]
     missing = [k for k in need if not st.get(k)]
-    if missing:
-        raise core.HarnessFailure("mutex stress observed none of: %s" % missing)
+    core.require_observed(verdict, missing, "mutex stress")
     outcomes = {k: v for k, v in st.items() if k.startswith("v1_") or k.startswith("v2_")}
     cov = {
         "evaluations": st.get("v1_lock_ops", 0) + st.get("v2_lock_ops", 0),
